@@ -30,7 +30,9 @@ def words(seed, k):
 
 def emit(evs, start_id_name, delivery=None):
     real = EV.realize(evs)
-    parser = EV.new_traces_parser()
+    # half of the windows are decoded on process tables that already know the two threads (a dump with a thread map): what
+    # a composite says about its window comes from the window
+    parser = EV.new_traces_parser() if len(evs) % 2 else EV.new_traces_parser(threads_pids={TID: 4242, OTHER: 4243}, pids_names={4242: 'mapped', 4243: 'other'})
     out = []
     for t in EV.deliver(parser, real, delivery):
         if t is not None and t.ktraces[0].tid == TID and t.ktraces[0].eventid == EV.eid(start_id_name):
@@ -96,7 +98,7 @@ def prop_vmfault(ctx, case):
             w = arg(e, 1)
             prot = (w >> 8) & 0xff
             return arg(e, 3), sorted(b for b in VM_PROT_BITS if prot & b) or [0]
-        got = None if t.pid is None and t.caller_prot is None else (t.pid, sorted(p.value for p in t.caller_prot))
+        got = None if t.pid is None and t.caller_prot is None else (t.pid, sorted(p.value for p in t.caller_prot) if t.caller_prot is not None else 'no-protection')
         if not mine:
             accepted = [None]
         elif mine[0][1] == 'RealFaultAddressPurgeable':
